@@ -2,8 +2,7 @@
 import ast
 import copy
 import re
-import sys
-from typing import List, Optional, Tuple, Union, cast
+from typing import List, Optional, Set, Tuple, Union, cast
 
 from func_adl.ast.call_stack import argument_stack, stack_frame
 from func_adl.ast.func_adl_ast_utils import (
@@ -24,29 +23,39 @@ from func_adl.util_ast import (
 
 argument_var_counter = 0
 
+# Names of the form `arg_N` in use that the counter could not be moved past (see below)
+_arg_names_to_skip: Set[str] = set()
+
 
 def arg_name():
     "Return a unique name that can be used as an argument"
     global argument_var_counter
-    n = "arg_{0}".format(argument_var_counter)
-    argument_var_counter += 1
-    return n
-
-
-# The longest decimal number int() / str() handle (0: no limit)
-_max_digits = getattr(sys, "get_int_max_str_digits", lambda: 0)() or sys.maxsize
+    while True:
+        n = "arg_{0}".format(argument_var_counter)
+        argument_var_counter += 1
+        if n not in _arg_names_to_skip:
+            return n
 
 
 def reserve_arg_names(a: ast.AST):
     "Move the counter past every name of the form `arg_N` that `a` already uses"
-    global argument_var_counter
+    global argument_var_counter, _arg_names_to_skip
+    _arg_names_to_skip = set()
     for node in ast.walk(a):
         name = (
             node.id if isinstance(node, ast.Name) else node.arg if isinstance(node, ast.arg) else ""
         )
-        # (only numbers below the longest one Python converts: the counter, one more, is still formatted)
-        if re.fullmatch("arg_[0-9]+", name) and len(name) - 4 < _max_digits:
-            argument_var_counter = max(argument_var_counter, int(name[4:]) + 1)
+        if re.fullmatch("arg_[0-9]+", name):
+            try:
+                # (the name after it has to be one that can be written, too)
+                after = int(name[4:]) + 1
+                str(after)
+            except ValueError:
+                # Python refuses to convert numbers this long. The counter stays where it is
+                # and steps over the name should it ever get there.
+                _arg_names_to_skip.add(name)
+                continue
+            argument_var_counter = max(argument_var_counter, after)
 
 
 def make_args_unique(a: ast.Lambda) -> ast.Lambda:
